@@ -186,9 +186,14 @@ def life_part(out, sc, quick, seed, rng):
         [('{0, 1}', '{0, 1, 2, 3}', '{{}, {2, 3}}', 7, LIFE_OUT), ('{1, 2}', '{1, 2, 3, 4}', '{{}, {3, 4}}', 14, '{"connfail", "ok", "badheader"}')]
     for k0, uni, gos, mc, outs in cfgs:
         sc.write('L.cfg', life_cfg(k0, uni, gos, mc, outs))
-        res = model_check(sc, 'PeerLife', 'L.cfg', timeout=3000, expect_actions=('Conn', 'Note', 'Done'))
+        res = model_check(sc, 'PeerLife', 'L.cfg', timeout=3000 if quick else 900, soft=not quick,
+                          expect_actions=('Conn', 'Note', 'Done') if quick else ())
         if res.violated:
             out.notes.append(f'TLC: PeerLife.tla violates {res.violated}; verdict is taken from the real runs')
+        elif res.timed_out:
+            out.notes.append(f'PeerLife.tla {k0} {uni} MaxConns={mc}: NOT exhausted within 900 s ({res.distinct} distinct states, '
+                             f'breadth-first, no violation)')
+            out.coverage['peer_life_exhaustive'] = False
         elif not res.no_error:
             raise MachineryError(res.out[-1500:])
         out.add(states=res.distinct, transitions=res.generated)
